@@ -190,11 +190,15 @@ Proof. unfold ienv. intros ->. reflexivity. Qed.
 (* ---------- extend_bdd_variables ---------- *)
 Theorem extend_ok dbg b new :
   wf_bdd b -> sset new -> incl (b_inputs b) new ->
-  exists b', extend dbg b new = Ok b' /\ wf_bdd b' /\ b_inputs b' = new /\ forall v, bsem b' v = bsem b v.
+  exists b', extend dbg b new = Ok b' /\ wf_bdd b' /\ b_inputs b' = new /\ (forall v, bsem b' v = bsem b v) /\
+             (forall y, occurs y (b_root b') -> exists x, nth_error new y = Some x /\ In x (b_inputs b)).
 Proof.
   intros (Hs & Hnv & Ho & Hr & Hb) Hnew Hincl. unfold extend.
   destruct (names_eqb_spec (b_inputs b) new) as [E|NE].
-  - exists b. repeat split; auto.
+  - exists b. repeat split; auto. intros y Hy. rewrite <- E.
+    assert (y < b_nv b) by (apply (occurs_bounds y 0 (b_nv b) (b_root b)); [repeat split; auto|auto]).
+    destruct (nth_error (b_inputs b) y) as [x|] eqn:Ex; [|apply nth_error_None in Ex; lia].
+    exists x. split; auto. eapply nth_error_In; eauto.
   - assert (Hdbg : dbg && negb (forallb (fun x => mem x new) (b_inputs b)) = false).
     { assert (forallb (fun x => mem x new) (b_inputs b) = true) as ->; [|apply andb_false_r].
       apply forallb_forall. intros x Hx. apply mem_In. apply Hincl. exact Hx. }
@@ -221,12 +225,14 @@ Proof.
                     = Ok (dd_map_vars f (b_root b))).
     { destruct perm; [|exact Hren]. rewrite map_vars_id; [reflexivity|]. intros x _. reflexivity. }
     rewrite Hroot. cbn [bind].
-    eexists. split; [reflexivity|]. split; [|split; [reflexivity|]].
+    eexists. split; [reflexivity|]. split; [|split; [reflexivity|split]].
     + repeat split; auto; apply Hinv.
     + intros v. unfold bsem. cbn [b_root b_inputs]. rewrite map_vars_sem. apply eval_agree.
       intros i Hi. destruct (Hocc i Hi) as (x & Ex & Fx). apply index_of_nth in Fx.
       fold (ienv new v (f i)). fold (ienv (b_inputs b) v i).
       rewrite (ienv_nth _ _ _ _ Fx), (ienv_nth _ _ _ _ Ex). reflexivity.
+    + cbn [b_root]. intros y Hy. apply occurs_map_vars in Hy. destruct Hy as (i & Hi & ->).
+      destruct (Hocc i Hi) as (x & Ex & Fx). exists x. split; [apply index_of_nth; auto|eapply nth_error_In; eauto].
 Qed.
 
 (* ---------- prune_bdd_variables ---------- *)
